@@ -1,13 +1,14 @@
 ---- MODULE MC_C07_selftest_eda ----
 \* Hand-written automaton of (x+)*y  (classes: 1 = x, 2 = y).  State 2 = "inside x+ after one x":
-\* a further x either continues the inner loop (edge 3) or leaves it and re-enters through the outer
-\* loop (edge 4): two routes, same class, same target.  NoEDA must be violated at anchor 2.
-EXTENDS RegexAmb
+\* a further x either continues the inner loop or leaves it and re-enters through the outer loop:
+\* two routes, same class, same target (a bundle with m = 2).  NoEDA must be violated at anchor 2.
+EXTENDS Naturals
+VARIABLES a, p1, p2, dv
 MC_N == 3
 MC_K == 2
-MC_M == 5
 MC_Anchors == {2}
-MC_Out == << {<<1, 2, 1>>, <<2, 3, 2>>},
-             {<<1, 2, 3>>, <<1, 2, 4>>, <<2, 3, 5>>},
-             {} >>
+MC_Out == << << {<<2, 1>>}, {<<3, 1>>} >>,
+             << {<<2, 2>>}, {<<3, 1>>} >>,
+             << {}, {} >> >>
+INSTANCE RegexAmb WITH N <- MC_N, K <- MC_K, Out <- MC_Out, Anchors <- MC_Anchors
 ====
